@@ -201,4 +201,28 @@ def metaValid (proto mode half rot payloadLen extractedLen : Nat) : Bool :=
      | none => false
      | some el => payloadLen == el)
 
+/-! ## The wire-level wrappers (pkg/protocol/underlay_base.go)
+
+The AEAD output of a data payload is `ciphertext body ‖ 16-byte tag`.  Only the body is expanded; the tag
+travels verbatim after the encoded body.  `extractedLen` = length of the ciphertext body, `payloadLen` =
+length of the encoded body (both metadata fields). -/
+
+/-- AEAD tag length (`cipher.DefaultOverhead`) -/
+def tagLen : Nat := 16
+
+/-- `encodeLowEntropyEncryptedPayload` (the padding polarity is the host-stable `lowEntropyPaddingBit`) -/
+def wrapEncode (ct : Bytes) (mode half rot payloadLen extractedLen : Nat) (pad : Bool) : Option Bytes :=
+  if ct.length ≠ extractedLen + tagLen then none else
+  match encode (ct.take extractedLen) mode half rot pad with
+  | none => none
+  | some body => if body.length ≠ payloadLen then none else some (body ++ ct.drop extractedLen)
+
+/-- `decodeLowEntropyEncryptedPayload`: metadata validation, length check, decode the body, keep the tag -/
+def wrapDecode (wire : Bytes) (proto mode half rot payloadLen extractedLen : Nat) : Option Bytes :=
+  if !metaValid proto mode half rot payloadLen extractedLen then none else
+  if wire.length ≠ payloadLen + tagLen then none else
+  match decode (wire.take payloadLen) extractedLen mode half rot with
+  | none => none
+  | some body => some (body ++ wire.drop payloadLen)
+
 end Mieru.LowEntropy
